@@ -12,119 +12,119 @@ BASELINE = "cd /repo && /venv/bin/python -m pytest -ra -q -p no:cacheprovider --
 
 CHECKS = {
     "C02": dict(
-        technique="static analysis: element-wise symbolic execution of the forward kernel (closed form of one image's contribution), path/selection rules on the image loop of the clang AST, symbolic block addressing, open-term and structural rules on the Python reference and on the index maps handed to the kernel for the two force-constant layouts; index-map typing (primitive / supercell / representative index sets, inverse tables, helper functions inlined) of the maps handed to the kernel; def-use rule that float change-of-basis matrices are rounded before integer conversion; frame typing of the shortest-vector basis change; transposition parity from the producer of the reduced basis / change of basis to every shortest-vector kernel call site",
+        technique="static analysis: element-wise symbolic execution of the forward kernel (closed form of one image's contribution), path/selection rules on the image loop of the clang AST, symbolic block addressing, open-term and structural rules on the Python reference and on the index maps handed to the kernel for the two force-constant layouts; index-map typing (primitive / supercell / representative index sets, inverse tables, helper functions inlined) of the maps handed to the kernel; def-use rule that float change-of-basis matrices are rounded before integer conversion; frame typing of the shortest-vector basis change; transposition parity from the producer of the reduced basis / change of basis to every shortest-vector kernel call site; after its own rules, the other properties' rules on the files this property is anchored in (anchor-scoped delegation, instances cached per tree digest); binary-search-on-sorted-data rule",
         level="other",
         text="Decides the shape of the lattice Fourier sum in both implementations: each term is Phi(j0, j'l) e^{+2 pi i q.s} / sqrt(m_j m_j'), averaged over the stored shortest vectors of exactly that (supercell atom, primitive atom) pair; the sum keeps exactly the supercell atoms that are images of j' and runs over all of them; the 3x3 block lands at (3j.., 3j'..); the maps handed to the kernel select the same atoms in the full and the compact layout; eigenvalues become frequencies by sign(e) sqrt|e| factor. Does not decide that the stored vectors are the minimum-image vectors (C05, a lattice theorem), nor equality of numbers with a closed-form crystal. The index maps are decided as typed maps (a position in sorted order is not a primitive index unless p2s_map is ascending), and the basis change of the shortest vectors as a rounded integer matrix of matching orientation.",
         note="Trusted: clang-14 JSON AST, sympy. Shares the forward-kernel rules with C06. The Hermitian symmetrisation that follows is decided under C03, the NAC additions under C08.",
         ref="DESIGN.md §3 C02",
     ),
     "C03": dict(
-        technique="static analysis: post-dominance of the Hermitian symmetrisation in the clang AST of the D(q) producers (statement-list position relative to the OpenMP/serial twin and the single return), algebra of make_Hermitian's loop body by source-to-sympy translation, symbolic loop-bound extraction (every pair j >= i, diagonal included), open-term rules for the Python reference and the masses setter; orientation typing of the reciprocal point-group operations; coverage of the derivative kernel's symmetrisation nest; def-use rule that float change-of-basis matrices are rounded before integer conversion; flow-sensitive provenance of the masses each cell receives in the masses setter",
+        technique="static analysis: post-dominance of the Hermitian symmetrisation in the clang AST of the D(q) producers (statement-list position relative to the OpenMP/serial twin and the single return), algebra of make_Hermitian's loop body by source-to-sympy translation, symbolic loop-bound extraction (every pair j >= i, diagonal included), open-term rules for the Python reference and the masses setter; orientation typing of the reciprocal point-group operations; coverage of the derivative kernel's symmetrisation nest; def-use rule that float change-of-basis matrices are rounded before integer conversion; flow-sensitive provenance of the masses each cell receives in the masses setter; after its own rules, the other properties' rules on the files this property is anchored in (anchor-scoped delegation, instances cached per tree digest)",
         level="other",
         text="Decides only the Hermiticity and mass-propagation clauses: because the property quantifies over arbitrary force constants, 'every producer path ends in (M + M^H)/2' is a necessary condition visible in code shape, and make_Hermitian's body is shown algebraically to compute a'=(a+conj b)/2, b'=conj a' over all pairs j>=i. D(-q)=conj D(q), G-periodicity, point-group invariance, the acoustic sum rule and the s/t scaling are statements about values and are not decided.",
         note="Trusted: clang-14 JSON AST, sympy. The dipole-dipole term added after the symmetrisation on the Gonze-Lee path is Hermitian analytically, not by a code step; not judged.",
         ref="DESIGN.md §3 C03",
     ),
     "C04": dict(
-        technique="static analysis on Python ast: index-variance (frame) typing of the lattice linear algebra — every axis is Cartesian, a lattice basis index or a lattice component index; .T swaps, inv swaps and flips, a contraction needs the same lattice with opposite variance — seeded from the repository's own conventions (x.cell, x.scaled_positions, supercell and primitive matrices); plus rejection-path rules (atom-count test before the maps are stored; species test on full symbols gathered through the mapping table); integrality typing of the trimming gate; rounding-before-integer-conversion def-use rule; symbolic evaluation of the trimming-frame expression on 3x3 symbolic entries with numpy broadcasting semantics (diag(frame).T = S); broadcast-alignment rule (per-row reductions combined with columns)",
+        technique="static analysis on Python ast: index-variance (frame) typing of the lattice linear algebra — every axis is Cartesian, a lattice basis index or a lattice component index; .T swaps, inv swaps and flips, a contraction needs the same lattice with opposite variance — seeded from the repository's own conventions (x.cell, x.scaled_positions, supercell and primitive matrices); plus rejection-path rules (atom-count test before the maps are stored; species test on full symbols gathered through the mapping table); integrality typing of the trimming gate; rounding-before-integer-conversion def-use rule; symbolic evaluation of the trimming-frame expression on 3x3 symbolic entries with numpy broadcasting semantics (diag(frame).T = S); broadcast-alignment rule (per-row reductions combined with columns); after its own rules, the other properties' rules on the files this property is anchored in (anchor-scoped delegation, instances cached per tree digest); symbolic corner points of the surrounding frame",
         level="other",
         text="Decides the clause 'the supercell has lattice S^T L' and its siblings for the primitive cell and the shortest-vector basis change for every matrix at once: a transposed or wrong-lattice product is a type error unless the matrix is diagonal, which is exactly why tests on diagonal/symmetric matrices cannot see it. Also decides that cells which cannot be tiled are rejected before index maps are stored. Does not decide duplicate-free tiling or the group property of the translation permutations (runtime values). Also decides the trimming gate's integrality, that float change-of-basis matrices are rounded (not truncated) before they become integer, and that the old-style trimming frame divides row i of the supercell matrix by the frame length of row i.",
         note="Trusted: CPython ast; the seed types of cell/positions/matrices (documented conventions of PhonopyAtoms and the Supercell/Primitive docstrings). Unknown operands type to unknown and are never reported.",
         ref="DESIGN.md §3 C04",
     ),
     "C06": dict(
-        technique="static analysis: element-wise symbolic execution (clang-14 JSON AST -> sympy closed form of a generic array element, reductions as Sum) of the forward kernel's per-image contribution and of the inverse kernel; coefficient extraction and trigonometric identity checks; open-term comparison of the two Python references; structural pairing rule for the Smith-normal-form enumeration of commensurate points; history-independence rule on run(); three-valued value-preservation analysis (same / changed / other, through copies, dtype conversions, locals and module helpers) of caller-supplied commensurate points; rounding-before-integer-conversion rule followed from parameters to call sites",
+        technique="static analysis: element-wise symbolic execution (clang-14 JSON AST -> sympy closed form of a generic array element, reductions as Sum) of the forward kernel's per-image contribution and of the inverse kernel; coefficient extraction and trigonometric identity checks; open-term comparison of the two Python references; structural pairing rule for the Smith-normal-form enumeration of commensurate points; history-independence rule on run(); three-valued value-preservation analysis (same / changed / other, through copies, dtype conversions, locals and module helpers) of caller-supplied commensurate points; rounding-before-integer-conversion rule followed from parameters to call sites; after its own rules, the other properties' rules on the files this property is anchored in (anchor-scoped delegation, instances cached per tree digest); interval evaluation of the extended-Euclid step for divisors of either sign",
         level="other",
         text="Decides that the inverse transform is, term by term, the counterpart of the forward one, which is what makes FC -> D(q_k) -> FC the identity on translationally invariant force constants: it sums over exactly N = num_satom/num_patom points; it multiplies D_k by the complex conjugate of the forward phase factor, averaged over the same shortest-vector images of the same (supercell atom, primitive atom) pair; it takes the real part of D e^{i phi}; it multiplies by sqrt(m_i m_j')/N where the forward kernel divides by sqrt(m_i m_j); the Python references do the same; the integer commensurate points run once over range(D0) x range(D1) x range(D2) with each index scaled by the other two Smith-normal-form entries. Does not decide that the enumerated points are distinct modulo reciprocal lattice vectors, numeric equality of a round trip, or Phonopy.ph2ph. Also decides that run() starts from zeroed force constants on every call and that commensurate points supplied by the caller are stored as given (the dynamical matrices supplied next belong to exactly those q).",
         note="Trusted: clang-14 JSON AST, sympy (cos(-x) = cos(x) folding is accounted for by deciding phase sign and Re/Im combination jointly).",
         ref="DESIGN.md §3 C06",
     ),
     "C08": dict(
-        technique="static analysis: element-wise symbolic execution of the NAC kernels' loop nests over the clang-14 JSON AST (literal-bound loops unrolled, size-bound loops run once for a generic index, array cells as patterns, callees inlined) giving closed sympy forms of a generic array element; homogeneity tests by substitution (direction -> s direction, Born -> s Born); who-writes and subscript-dependence rules; open-term comparison of the Python fallback with the same closed form",
+        technique="static analysis: element-wise symbolic execution of the NAC kernels' loop nests over the clang-14 JSON AST (literal-bound loops unrolled, size-bound loops run once for a generic index, array cells as patterns, callees inlined) giving closed sympy forms of a generic array element; homogeneity tests by substitution (direction -> s direction, Born -> s Born); who-writes and subscript-dependence rules; open-term comparison of the Python fallback with the same closed form; after its own rules, the other properties' rules on the files this property is anchored in (anchor-scoped delegation, instances cached per tree digest)",
         level="other",
         text="Decides the zone-centre clauses for both methods: the term added along a direction n is nac_factor (n.Z_j)_a (n.Z_j')_b / (n.eps.n) (Wang: kernel and Python fallback, per image 1/N; Gonze-Lee: the G+q=0 term n_a n_b/(n.eps.n) dressed by multiply_borns), it is homogeneous of degree 0 in n -- hence independent of the length of n --, every correction term is bilinear in the Born charges -- hence zero charges switch it off --, the Wang addend is the same for all supercell images of a primitive atom, which is what makes it cancel at non-zero commensurate q, and the Gonze-Lee short-range force constants are built from dynamical matrices, dipole terms and an inverse transform that all use the same representatives of the commensurate points. Does not decide the cancellation of the Gonze-Lee reciprocal sum at commensurate points (a lattice-sum identity realised by a run-time G list), its stated precision, or the mass weighting / eigenvalues.",
         note="Trusted: clang-14 JSON AST, sympy. Assumption printed in the evidence: dd_q0 comes from the same Born dressing. The zone-centre switch tolerance is compared across languages under C13 (R13e).",
         ref="DESIGN.md §3 C08",
     ),
     "C09": dict(
-        technique="static analysis on Python ast: structural proof obligations on the weight construction (open-term comparison), typestate over guard-correlated paths for the coupled symmetry flags, sibling keyword agreement for stored/iterated meshes, axis/weight abstract interpretation of nine mesh consumers (every sum/dot/einsum/loop accumulation over the irreducible q axis carries the weight; result homogeneous of degree 0 in the weights), pairwise precondition rule for the rotations (mesh numbers and half-shift flags per lattice-equivalent axis pair), guard-before-construction rule for consumers that need an unreduced mesh; finite-domain evaluation of the half-shift flag function; multiset typing of the weight construction; orientation typing of rotations; symbolic execution of the lattice-vector-equivalence function for a generic rotation with Boolean equivalence over sign-insensitive atoms",
+        technique="static analysis on Python ast: structural proof obligations on the weight construction (open-term comparison), typestate over guard-correlated paths for the coupled symmetry flags, sibling keyword agreement for stored/iterated meshes, axis/weight abstract interpretation of nine mesh consumers (every sum/dot/einsum/loop accumulation over the irreducible q axis carries the weight; result homogeneous of degree 0 in the weights), pairwise precondition rule for the rotations (mesh numbers and half-shift flags per lattice-equivalent axis pair), guard-before-construction rule for consumers that need an unreduced mesh; finite-domain evaluation of the half-shift flag function; multiset typing of the weight construction; orientation typing of rotations; symbolic execution of the lattice-vector-equivalence function for a generic rotation with Boolean equivalence over sign-insensitive atoms; after its own rules, the other properties' rules on the files this property is anchored in (anchor-scoped delegation, instances cached per tree digest); global-normalisation rule for weighted means; binary-search rule",
         level="other",
         text="Decides the clauses that make 'reduced sampling == full sampling' true by construction: weights are one count per grid point selected by the values of the same table; time reversal is never used where mesh symmetry is off (all constructor paths, all callers); both mesh flavours receive the same rotations and the symmetry library their documented orientation; every consumer (loop, dot, einsum or sum form) weights each q exactly once and divides by the weight sum; rotations are only used when mesh numbers and half-shifts agree on every pair of axes a rotation exchanges; eigenvector-dependent consumers refuse reduced meshes. Does not decide that spglib's mapping is a correct orbit decomposition.",
         note="Trusted: CPython ast, spglib's documented argument conventions.",
         ref="DESIGN.md §3 C09",
     ),
     "C10": dict(
-        technique="static analysis: source-to-sympy translation of the Python and C closed forms (algebraic identity checking), interval abstract interpretation with IEEE-754 specials, AST pattern rules for filters/guards/unit chain; element-wise symbolic execution of the whole compiled reduction (closed form of a generic output cell with indicator factors for the T and cutoff guards); path conditions of the accumulations; path enumeration of the constructor over its options (absolute values / band selection on every path)",
+        technique="static analysis: source-to-sympy translation of the Python and C closed forms (algebraic identity checking), interval abstract interpretation with IEEE-754 specials, AST pattern rules for filters/guards/unit chain; element-wise symbolic execution of the whole compiled reduction (closed form of a generic output cell with indicator factors for the T and cutoff guards); path conditions of the accumulations; path enumeration of the constructor over its options (absolute values / band selection on every path); after its own rules, the other properties' rules on the files this property is anchored in (anchor-scoped delegation, instances cached per tree digest); binary-search rule",
         level="other",
         text="Decides, for the source expressions themselves (not sampled values): S=-dF/dT, Cv=T dS/dT, documented F, C==Python, absence of NaN/inf over a stated (T,nu) box including h nu/kT >> 709, a single cutoff filter, identical unit chain and the T=0 guard. Does not decide monotonicity or what LAPACK returns.",
         note="Trusted: CPython ast, clang-14 JSON AST, sympy as normaliser, the translators in engine/symalg.py, interval semantics in engine/absint.py (rounding ignored except overflow/underflow/absorption thresholds).",
         ref="DESIGN.md §3 C10",
     ),
     "C11": dict(
-        technique="static analysis: clang-JSON-to-sympy and ast-to-sympy translation of the 38+38 tetrahedron closed forms (equality as rational functions, sum rules by differentiation/cancellation), exhaustive evaluation of the literal C tetrahedra tables, abstract interpretation of the sorting network over the finite domain of 24 orderings, dispatch-table and case-split comparison, symbolic integration of the smearing kernels; element-wise symbolic execution of the table-copy and helper loops; provenance rule for stored iterator weights; role-based extraction (parameters by position, locals by what they receive); closed form of the compiled tetrahedron-DOS driver with uninterpreted library calls, structural rule on its irreducible-point tables; no-truncation rule for the smearing kernel",
+        technique="static analysis: clang-JSON-to-sympy and ast-to-sympy translation of the 38+38 tetrahedron closed forms (equality as rational functions, sum rules by differentiation/cancellation), exhaustive evaluation of the literal C tetrahedra tables, abstract interpretation of the sorting network over the finite domain of 24 orderings, dispatch-table and case-split comparison, symbolic integration of the smearing kernels; element-wise symbolic execution of the table-copy and helper loops; provenance rule for stored iterator weights; role-based extraction (parameters by position, locals by what they receive); closed form of the compiled tetrahedron-DOS driver with uninterpreted library calls, structural rule on its irreducible-point tables; no-truncation rule for the smearing kernel; after its own rules, the other properties' rules on the files this property is anchored in (anchor-scoped delegation, instances cached per tree digest); grid-index stride rule; kind inference for the rank of the central vertex",
         level="other",
         text="Decides: C==Python for every closed form and for the (i,ci) dispatch and omega case split; sum_c I=1, sum_c J=1 (additivity of projected DOS), dn/dw=g, continuity and full normalisation of n; geometric validity of the 4x24 literal tetrahedra; correctness of sort_omegas on all strict orderings; unit integral of both smearing kernels; that every DOS path weights by multiplicity and divides by the grid size once. Does not decide non-negativity / [0,1] bounds (inequalities) or the run-time generated Python table.",
         note="Trusted: clang-14 JSON AST (parsed with -DTHM_EPSILON=1e-10 as CMake does), CPython ast, sympy cancel/diff/integrate as normaliser, engine/symalg.py translators. Generic branch of _f (distinct vertex frequencies).",
         ref="DESIGN.md §3 C11",
     ),
     "C12": dict(
-        technique="static analysis: source-to-sympy derivative identity for the chain-rule coefficient, open-term comparison of the finite-difference and Grueneisen formulas with the documented ones, element-wise symbolic execution of the compiled derivative kernel compared with the sympy derivative of the forward kernel's closed form (FC part with image selection, NAC part), whole-class attribute resolution for objects constructed from repository classes, path enumeration of the q-point loops for band-order consistency of all per-band results; frame typing of the finite-difference displacement; open-term comparison of the group-velocity assembly sites; role-separation rule for the degeneracy tolerance",
+        technique="static analysis: source-to-sympy derivative identity for the chain-rule coefficient, open-term comparison of the finite-difference and Grueneisen formulas with the documented ones, element-wise symbolic execution of the compiled derivative kernel compared with the sympy derivative of the forward kernel's closed form (FC part with image selection, NAC part), whole-class attribute resolution for objects constructed from repository classes, path enumeration of the q-point loops for band-order consistency of all per-band results; frame typing of the finite-difference displacement; open-term comparison of the group-velocity assembly sites; role-separation rule for the degeneracy tolerance; after its own rules, the other properties' rules on the files this property is anchored in (anchor-scoped delegation, instances cached per tree digest); symmetry-source rule for the Grueneisen mesh",
         level="other",
         text="Decides the coefficient clauses: the factor applied to <e|dD|e> is d(factor sqrt l)/dl, the numerical derivative is the symmetric difference over 2|dq|, gamma = -<e|dD|e>/(dV/V)/(2 l) with dD = D(V+) - D(V-) and the strain from the three supplied cells; that every documented access path (attribute/method on a locally constructed repository object) exists, and that eigenvalues, eigenvectors, <e|dD|e> and group velocities of one q-point are reordered by the same band connection. Does not decide that dD equals the derivative of D (loop nests), degeneracy handling or mesh agreement.",
         note="Trusted: CPython ast, sympy. Two known findings: phonopy-gruneisen calls two methods PhonopyGruneisen no longer has.",
         ref="DESIGN.md §3 C12",
     ),
     "C13": dict(
-        technique="static analysis over the clang-14 JSON AST of c/*.c and the nanobind glue plus Python ast: cross-language ABI table (dtype/contiguity/arity by backward def-use with call context), swapped-argument detector, OpenMP data-sharing and mixed-radix subscript-injectivity analysis with callee write summaries, preprocessor-block and serial/parallel twin comparison, symbolic bounds of every write against malloc sizes / fixed extents / Python allocation shapes, perfect mixed-radix (dense row-major) form of every affine subscript, symbolic differentiation of the derivative kernel's helpers, constant and sibling-kernel agreement; the kernel closed-form rules of C02/C06/C08/C10/C11/C12 re-run for their instances in the compiled sources (every routine equals its reference formula)",
+        technique="static analysis over the clang-14 JSON AST of c/*.c and the nanobind glue plus Python ast: cross-language ABI table (dtype/contiguity/arity by backward def-use with call context), swapped-argument detector, OpenMP data-sharing and mixed-radix subscript-injectivity analysis with callee write summaries, preprocessor-block and serial/parallel twin comparison, symbolic bounds of every write against malloc sizes / fixed extents / Python allocation shapes, perfect mixed-radix (dense row-major) form of every affine subscript, symbolic differentiation of the derivative kernel's helpers, constant and sibling-kernel agreement; the kernel closed-form rules of C02/C06/C08/C10/C11/C12 re-run for their instances in the compiled sources (every routine equals its reference formula); after its own rules, the other properties' rules on the files this property is anchored in (anchor-scoped delegation, instances cached per tree digest)",
         level="other",
         text="Decides the shape-of-code failure modes the property names: a kernel reinterpreting a buffer (dtype, layout, argument order, axis), a data race or order-dependent shared accumulation in any of the 11 parallel regions (for every schedule and thread count), code that exists only in the OpenMP build, a write past a temporary, a fixed-extent array or the array Python allocated, leaks, and diverging cross-language constants. Does not decide that loop-nest kernels compute the reference values (that is decided for the closed-form kernels under C10/C11 only). For the kernels that have a closed form (Fourier sum, inverse transform, NAC terms, thermal reduction, tetrahedron weights and DOS driver, derivative kernel) it also decides that the routine computes the reference formula, by the rules of the property that owns the formula.",
         note="Trusted: clang-14 JSON AST, the 30-line nanobind/omp.h stubs under /verif/stubs, sympy polynomial arithmetic. Assumptions (value ranges / injectivity of integer index maps supplied by the Python layer) are printed in the evidence. Unresolved Python arguments are listed as unknown, never reported.",
         ref="DESIGN.md §3 C13",
     ),
     "C14": dict(
-        technique="static analysis on Python ast: guard-correlated alias/retention/overwrite analysis, path-sensitive definite-assignment (worlds of option-guard facts with class flag implications), open-term normal form of every eigenvalue->frequency conversion site, sibling-call keyword agreement across if-arms, who-reads rule for file writers; value-taint rule for the yaml / hdf5 writers of eigenvectors (copy only: indexing, transposition, reshape, real / imaginary part)",
+        technique="static analysis on Python ast: guard-correlated alias/retention/overwrite analysis, path-sensitive definite-assignment (worlds of option-guard facts with class flag implications), open-term normal form of every eigenvalue->frequency conversion site, sibling-call keyword agreement across if-arms, who-reads rule for file writers; value-taint rule for the yaml / hdf5 writers of eigenvectors (copy only: indexing, transposition, reshape, real / imaginary part); after its own rules, the other properties' rules on the files this property is anchored in (anchor-scoped delegation, instances cached per tree digest); zone-centre window rule; same-name forwarding rule; sibling-class keyword rule",
         level="other",
         text="Decides, for every combination of the boolean output options (a product space no test enumerates), that no retained result view is overwritten through an alias, that no result variable is unbound on an option path, that all 11 access paths convert eigenvalues to frequencies by the same expression, that stored and iterated meshes (and every other if-selected sibling construction) are configured with the same keyword values, and that writers read only what the API returns. Does not decide that LAPACK eigenvectors diagonalise the matrix or band-connection permutations.",
         note="Trusted: CPython ast, sympy as normaliser. Assumes for-loops run at least once, == dispatch chains are exhaustive, and 'if b: self._a = True' in __init__ is an invariant.",
         ref="DESIGN.md §3 C14",
     ),
     "C15": dict(
-        technique="static analysis on Python ast: interprocedural effect summaries (which repo functions mutate which argument in place), two-state typestate (written / rebuilt) over guard-correlated worlds for every public method and property setter of Phonopy, who-captures-the-dynamical-matrix analysis, copy-at-the-boundary rules for PhonopyAtoms, constructor-parameter exhaustiveness of copy()",
+        technique="static analysis on Python ast: interprocedural effect summaries (which repo functions mutate which argument in place), two-state typestate (written / rebuilt) over guard-correlated worlds for every public method and property setter of Phonopy, who-captures-the-dynamical-matrix analysis, copy-at-the-boundary rules for PhonopyAtoms, constructor-parameter exhaustiveness of copy(); after its own rules, the other properties' rules on the files this property is anchored in (anchor-scoped delegation, instances cached per tree digest); may-alias analysis of conditional copies changed in place",
         level="other",
         text="Decides the clause that makes history independence possible at all: on every normal exit of every public state-changing operation (found through effect summaries, not a name list) the dynamical matrix and the persistent group-velocity helper are rebuilt from all four state fields, dataset writers drop the cached displaced supercells, builders do not feed a state field back into itself, cell objects hand out and store copies, and copy() forwards every constructor parameter. Histories are unbounded; the rule is per operation and therefore covers every sequence. Does not decide numerical equality with a fresh object.",
         note="Trusted: CPython ast; the accepted skip guards (no masses / no force constants yet) and the net-identity exception (show_drift_force_constants) are listed in the rule source. The documented zero-copy contract of Phonopy.force_constants is not judged. One known finding (deprecated frequency_scale_factor).",
         ref="DESIGN.md §3 C15",
     ),
     "C16": dict(
-        technique="static analysis on Python ast: extraction of the yaml keys the dumpers can emit (string/f-string templates, holes resolved through call-site literals) and of the keys the loaders read (taint from self._yaml), set agreement for the fields the property names, legacy-key table; format-string tokenisation of the whitespace-parsed text writers; who-passes-what rule for save() and monotonicity of the settings save() adjusts; site typing of the BORN symmetry expansion; default-fill discipline of the loading helpers (guarded writes into loaded dictionaries, merge order); flow-sensitive provenance of the masses each cell receives before save()",
+        technique="static analysis on Python ast: extraction of the yaml keys the dumpers can emit (string/f-string templates, holes resolved through call-site literals) and of the keys the loaders read (taint from self._yaml), set agreement for the fields the property names, legacy-key table; format-string tokenisation of the whitespace-parsed text writers; who-passes-what rule for save() and monotonicity of the settings save() adjusts; site typing of the BORN symmetry expansion; default-fill discipline of the loading helpers (guarded writes into loaded dictionaries, merge order); flow-sensitive provenance of the masses each cell receives before save(); after its own rules, the other properties' rules on the files this property is anchored in (anchor-scoped delegation, instances cached per tree digest); class-level mutable default rule; resolved-argument rule of load(); same-name forwarding",
         level="other",
         text="Decides the necessary conditions of write->read identity that are properties of the pair of functions: both sides use the same key names for every field the property lists, every other key the loader reads is emitted or a documented legacy key, save() hands all ten pieces of state to the dumper and never switches off an item the caller asked for, numeric columns of FORCE_SETS/FORCE_CONSTANTS/BORN cannot fuse whatever the magnitude, and the 6-column split matches the writer. Does not decide numerical equality after a round trip or hdf5 contents. Also decides that the BORN expansion applies the operation in the direction representative -> atom and that a value read from a file is never replaced by a calculator default on loading.",
         note="Trusted: CPython ast; legacy keys are a frozen table with one reason each; the latent prefix mismatch of the v2.23 legacy parser is reported as a note, not a finding.",
         ref="DESIGN.md §3 C16",
     ),
     "C17": dict(
-        technique="static analysis on Python ast: dispatch-table extraction and exhaustiveness over the calculator registry with callee existence/arity resolution, constant folding of units.py against a dimensional model of each unit string (factor, NAC factor, lengths, forces, conversion table), atom-order domain typing (original / sorted-by-species / permutation / grouped counts) in the structure writers, reader-tuple vs consumer shape agreement, refusal-path rule for create_FORCE_SETS, index-domain typing (file-row order vs atom-id order) of the id-keyed LAMMPS force loader; order-domain typing of the species grouping primitive; lookup-index typing (an index found by searching Y subscripts only lists in Y's order) in the interface modules; broadcast-alignment rule in the structure writers",
+        technique="static analysis on Python ast: dispatch-table extraction and exhaustiveness over the calculator registry with callee existence/arity resolution, constant folding of units.py against a dimensional model of each unit string (factor, NAC factor, lengths, forces, conversion table), atom-order domain typing (original / sorted-by-species / permutation / grouped counts) in the structure writers, reader-tuple vs consumer shape agreement, refusal-path rule for create_FORCE_SETS, index-domain typing (file-row order vs atom-id order) of the id-keyed LAMMPS force loader; order-domain typing of the species grouping primitive; lookup-index typing (an index found by searching Y subscripts only lists in Y's order) in the interface modules; broadcast-alignment rule in the structure writers; after its own rules, the other properties' rules on the files this property is anchored in (anchor-scoped delegation, instances cached per tree digest); Gram-matrix identities of the cell-from-parameters routine; provenance typing of the SIESTA species tables",
         level="other",
         text="Decides exhaustively over the 16 calculators: a handler exists with a compatible signature in all 7 dispatch functions; every unit number equals what its own unit strings imply (to 1e-9) so that one crystal gives the same THz in every unit system; no writer pairs a per-atom sequence in original order with one sorted by species (the defect only shows for interleaved input, which no sample file has); consumers index the reader's info tuple within its length; position mismatches refuse; force rows keyed by atom id are scattered to that id, never gathered through the ids, and incomplete id sets are refused. Does not decide textual round trips of particular files or lattice orientation conventions. Also decides, for the WIEN2k reader, that forces stored in case.scf order are addressed through an index looked up in a list of the same order.",
         note="Trusted: CPython ast; the per-atom meaning of two writer parameters (speci, conv_numbers) is a frozen table with reasons. Relative tolerance 1e-9 against constants folded from units.py itself.",
         ref="DESIGN.md §3 C17",
     ),
     "C18": dict(
-        technique="static analysis on Python ast: extraction of the seven tables of the settings pipeline (argparse dests, read_options forwarding with guard kind and value encoding, parse_conf handlers, set_parameter names, set_settings consumers, Settings keys/setters, settings reads in the scripts) and set-algebra / agreement rules between adjacent tables, including evaluation of every parser default against the guard under which the dest is forwarded; silent-default evaluation of all add_argument calls; sibling-construction rule for the command defaults handed to the configuration parser",
+        technique="static analysis on Python ast: extraction of the seven tables of the settings pipeline (argparse dests, read_options forwarding with guard kind and value encoding, parse_conf handlers, set_parameter names, set_settings consumers, Settings keys/setters, settings reads in the scripts) and set-algebra / agreement rules between adjacent tables, including evaluation of every parser default against the guard under which the dest is forwarded; silent-default evaluation of all add_argument calls; sibling-construction rule for the command defaults handed to the configuration parser; after its own rules, the other properties' rules on the files this property is anchored in (anchor-scoped delegation, instances cached per tree digest); path evaluation of the primitive-matrix precedence; same-name forwarding",
         level="other",
         text="Decides, exhaustively over all ~107 options and ~111 tags, the clause 'a setting has the same effect as tag or as option' as far as it is a property of the tables: every option reaches a handler, every parameter reaches an existing setter, every settings read in the scripts exists, the encoding stored for a key is the one its handler parses (including the polarity of negative flags), numeric options are forwarded under 'is not None' so that 0 means 0 on both routes, and an option that was not typed forwards nothing, so a configuration-file tag is not overridden by a parser default. Does not decide that output files equal library results. Also decides that the command defaults (phonopy-load: NAC on, symmetrised force constants) are in force whether or not a configuration file is read.",
         note="Trusted: CPython ast. Options handled directly by the scripts and namespace-only probes are frozen lists with one reason each. Documentation tags are reported as notes only.",
         ref="DESIGN.md §3 C18",
     ),
     "C19": dict(
-        technique="static analysis: source-to-sympy translation of the displacement prefactors with symbolic unit constants (identity with hbar/(2 m w)(1+2n) and k_B T/(m w^2)), equality of the Bose-Einstein expressions across modules, structural rules for the sqrt(2) / real-imaginary bookkeeping of conjugate q-point pairs, interprocedural frame typing of the sampler's position/phase set-up; interprocedural count of seeded random generators per run; open-term comparison of the sampler and thermal-displacement assembly sites in each function's own environment; symbolic evaluation of the CIF normalisation on 3x3 symbols; broadcast-alignment rule",
+        technique="static analysis: source-to-sympy translation of the displacement prefactors with symbolic unit constants (identity with hbar/(2 m w)(1+2n) and k_B T/(m w^2)), equality of the Bose-Einstein expressions across modules, structural rules for the sqrt(2) / real-imaginary bookkeeping of conjugate q-point pairs, interprocedural frame typing of the sampler's position/phase set-up; interprocedural count of seeded random generators per run; open-term comparison of the sampler and thermal-displacement assembly sites in each function's own environment; symbolic evaluation of the CIF normalisation on 3x3 symbols; broadcast-alignment rule; after its own rules, the other properties' rules on the files this property is anchored in (anchor-scoped delegation, instances cached per tree digest); memoised-derived-state rule (with a built-in positive example)",
         level="other",
         text="Decides the prefactor and distribution clauses for all temperatures/frequencies at once: both modules' mean-square amplitude per mode is algebraically the harmonic canonical one (quantum and classical), the two Bose-Einstein factors are the same function, q = -q+G points carry no sqrt(2) and conjugate pairs do with Re - Im, the partition is computed once, and supercell positions enter the phases as primitive-cell components contracted with reduced q-points. Does not decide covariance equality of the sampler, positive semi-definiteness or the CIF transform.",
         note="Trusted: CPython ast, sympy, units.py constants as symbols. One known finding: populations are switched off for T <= 1 K in ThermalMotion.",
         ref="DESIGN.md §3 C19",
     ),
     "C20": dict(
-        technique="static analysis: source-to-sympy translation of the three equations of state and symbolic differentiation (12 defining-meaning obligations); open-term normal-form comparison of the QHA finite-difference, unit and PV formulas with the documented ones; dispatch/unpack-order table rules; exactness of the numerical Cp on quadratics with np.polyfit interpreted; temperature-window rules; element-wise reading of vectorised slice stores; dtype rule for result arrays; dispatch read as a name -> function map in either spelling",
+        technique="static analysis: source-to-sympy translation of the three equations of state and symbolic differentiation (12 defining-meaning obligations); open-term normal-form comparison of the QHA finite-difference, unit and PV formulas with the documented ones; dispatch/unpack-order table rules; exactness of the numerical Cp on quadratics with np.polyfit interpreted; temperature-window rules; element-wise reading of vectorised slice stores; dtype rule for result arrays; dispatch read as a name -> function map in either spelling; after its own rules, the other properties' rules on the files this property is anchored in (anchor-scoped delegation, instances cached per tree digest); order-domain typing of the volume-indexed arrays",
         level="proof",
         text="Every obligation is an algebraic identity about the source expression as written (E(V0)=E0, E'(V0)=0, V0E''(V0)=B0, dB/dP=B0'; +PV term; row-i-to-temperature-i; documented finite differences), discharged by sympy normalisation — valid for all parameter values, which no test can sample. Does not decide that scipy's least-squares fit recovers the parameters. Also decides the temperature window, the residual's argument order, and that result arrays cannot silently take an integer dtype from caller-supplied temperatures.",
         note="Trusted: CPython ast, sympy 1.14 diff/simplify as normaliser, translators in engine/symalg.py. Assumes v, V0, B0, B0' > 0; Murnaghan's removable singularity at B0'=1 not claimed.",
